@@ -135,7 +135,16 @@ type attribution struct {
 	pairFamily map[string]string // key -> dynamic family when every pair showing the key lies inside one family
 }
 
+// domIndex maps a processor index to the index of its domain in j.Procs
+func domIndex(j Job, pi int) int {
+	if j.DomainOf != nil && pi >= 0 && pi < len(j.DomainOf) {
+		return j.DomainOf[pi]
+	}
+	return pi
+}
+
 func ctxOf(j Job, pi int) string {
+	pi = domIndex(j, pi)
 	if pi >= len(j.Procs) {
 		pi = 0
 	}
@@ -431,11 +440,11 @@ func (a *attribution) components(ji, di int) []string {
 		return []string{where}
 	}
 	pi := procIndex(d)
-	if pi < 0 || pi >= len(j.Procs) {
+	if pi < 0 || domIndex(j, pi) >= len(j.Procs) {
 		// a side file written by an opcode (ExtraFiles) or anything else
 		return []string{"file:" + normIdent(strings.TrimSuffix(f, ".v"))}
 	}
-	ops := j.Procs[pi].Ops
+	ops := j.Procs[domIndex(j, pi)].Ops
 	c := ctxOf(j, pi)
 	if a.isBase(c, k) {
 		return []string{"conproc"}
